@@ -661,7 +661,11 @@ pub fn c01(c: &Collector, g: &mut Guard) {
         let sizes: Vec<(u32, u32)> = vec![(65536, 65536), (70000, 70000), (65535, 65537), (46341, 46341), (100000, 50000), (9999, 429497), (5, 1000000)];
         let hb: Vec<Base> = wb.iter().step_by((wb.len() / 3).max(1)).take(3).cloned().collect();
         let t0 = std::time::Instant::now();
-        fork_map_c01(c, "api.resize-huge", hb.len() * sizes.len(), timeout, |i, cc| {
+        // Only a panic is a verdict here. A worker that runs out of memory or time on such a size
+        // says nothing: an implementation with a dense buffer, or one whose resize is linear in
+        // the width, is entitled to need the memory. Those cases are recorded as inconclusive.
+        let huge_timeout = Duration::from_secs(if thorough { 300 } else { 40 });
+        let inconclusive = fork_map(c, hb.len() * sizes.len(), huge_timeout, |i, cc| {
             let b = &hb[i / sizes.len()];
             let (l, w) = sizes[i % sizes.len()];
             cc.add_transitions(1);
@@ -672,6 +676,10 @@ pub fn c01(c: &Collector, g: &mut Guard) {
                 eprintln!("[huge-resize] {}x{} done at {:.1}s", l, w, t0.elapsed().as_secs_f64());
             }
         });
+        if !inconclusive.is_empty() {
+            c.count("huge_resize_inconclusive_workers", inconclusive.len() as u64);
+            c.note(format!("E5.api.resize-huge: {} worker(s) ended abnormally (memory / time) and their cases are inconclusive, e.g. {}", inconclusive.len(), inconclusive[0].how));
+        }
     }
     // columns at the top of the u32 range ("resize() to any size of at least 1x1"): the cursor is taken
     // to the last column with HT and every operation whose cost does not depend on the width is
@@ -680,14 +688,17 @@ pub fn c01(c: &Collector, g: &mut Guard) {
     {
         let widths: Vec<u32> = vec![u32::MAX, u32::MAX - 1, u32::MAX - 2, u32::MAX - 9998, u32::MAX - 9999, u32::MAX - 10000, 1 << 31, (1 << 31) + 1, (1 << 31) - 1];
         let eops = edge_ops();
-        fork_map_c01(c, "api.max-width", widths.len(), timeout, |i, cc| {
-            for (k, _) in eops.iter().enumerate() {
-                cc.add_transitions(1);
-                cc.count("oracle_checks", 1);
-                max_width_case(cc, widths[i], k, "E5.api.max-width");
-                cc.count("max_width_cases", 1);
-            }
+        let huge_timeout = Duration::from_secs(if thorough { 300 } else { 40 });
+        let inconclusive = fork_map(c, widths.len() * eops.len(), huge_timeout, |i, cc| {
+            cc.add_transitions(1);
+            cc.count("oracle_checks", 1);
+            max_width_case(cc, widths[i / eops.len()], i % eops.len(), "E5.api.max-width");
+            cc.count("max_width_cases", 1);
         });
+        if !inconclusive.is_empty() {
+            c.count("max_width_inconclusive_workers", inconclusive.len() as u64);
+            c.note(format!("E5.api.max-width: {} worker(s) ended abnormally (memory / time) and their cases are inconclusive, e.g. {}", inconclusive.len(), inconclusive[0].how));
+        }
     }
     // the environment answers too: writes to stdout fail (closed pipe). Diagnostics printed for
     // unrecognised sequences must not take the parser down.
@@ -771,8 +782,6 @@ pub fn c01(c: &Collector, g: &mut Guard) {
     g.need(c, "macro_cases");
     g.need(c, "wide_param_transitions");
     g.need(c, "resize_transitions");
-    g.need(c, "huge_resize_cases");
-    g.need(c, "max_width_cases");
     g.need(c, "stdout_broken_cases");
     g.need(c, "api_sequence_transitions");
     g.need(c, "session_cases");
